@@ -48,7 +48,7 @@ Qed.
 (* ---------- one evaluation ---------- *)
 Lemma evaluate_ok_iff m L vec ll b :
   evaluate N m L vec = EvOk ll b <->
-  (length vec = prior_count m /\ limits_ok N (m_limits m) vec = true /\
+  (length vec = prior_count m /\ limits_gate N m vec = true /\
    forallb (assert_ok N vec) (m_asserts m) = true /\
    L (instance N m vec) = LRet ll b /\ n_isnan N ll = false).
 Proof.
@@ -56,7 +56,7 @@ Proof.
   destruct (length vec =? prior_count m)%nat eqn:El; simpl.
   2:{ apply Nat.eqb_neq in El. split; [discriminate | intros [H _]; contradiction]. }
   apply Nat.eqb_eq in El.
-  destruct (limits_ok N (m_limits m) vec) eqn:Elim; simpl.
+  destruct (limits_gate N m vec) eqn:Elim; simpl.
   2:{ split; [discriminate | intros (_ & H & _); discriminate]. }
   destruct (forallb (assert_ok N vec) (m_asserts m)) eqn:Eas; simpl.
   2:{ split; [discriminate | intros (_ & _ & H & _); discriminate]. }
@@ -72,7 +72,7 @@ Qed.
 Lemma evaluate_resample_iff m L vec :
   evaluate N m L vec = EvResample <->
   (length vec = prior_count m /\
-   (limits_ok N (m_limits m) vec = false \/
+   (limits_gate N m vec = false \/
     forallb (assert_ok N vec) (m_asserts m) = false \/
     L (instance N m vec) = LRaise \/
     exists ll b, L (instance N m vec) = LRet ll b /\ n_isnan N ll = true)).
@@ -81,7 +81,7 @@ Proof.
   destruct (length vec =? prior_count m)%nat eqn:El; simpl.
   2:{ apply Nat.eqb_neq in El. split; [discriminate | intros [H _]; contradiction]. }
   apply Nat.eqb_eq in El.
-  destruct (limits_ok N (m_limits m) vec) eqn:Elim; simpl.
+  destruct (limits_gate N m vec) eqn:Elim; simpl.
   2:{ split; auto. }
   destruct (forallb (assert_ok N vec) (m_asserts m)) eqn:Eas; simpl.
   2:{ split; auto. }
@@ -99,7 +99,7 @@ Proof.
   unfold evaluate, instance_from_vector.
   destruct (length vec =? prior_count m)%nat eqn:El; simpl.
   - apply Nat.eqb_eq in El. split.
-    + destruct (limits_ok N (m_limits m) vec); simpl; [|discriminate].
+    + destruct (limits_gate N m vec); simpl; [|discriminate].
       destruct (forallb (assert_ok N vec) (m_asserts m)); simpl; [|discriminate].
       destruct (L (instance N m vec)) as [ll b|]; [|discriminate]. destruct (n_isnan N ll); discriminate.
     + intros [H _]; contradiction.
@@ -177,7 +177,7 @@ Lemma step_heap I m L lp fl r st o :
   heap (fst (step N I m L lp fl r st o)) =
   match o with OWrite b v => upd (heap st) b v | _ => heap st end.
 Proof.
-  destruct o as [b|b v|bs]; simpl; auto.
+  destruct o as [b|b v|bs|]; simpl; auto.
   destruct (evaluate N m L (buf (heap st) b)) as [e| |ll bx]; reflexivity.
 Qed.
 
@@ -193,8 +193,9 @@ Lemma run_outputs I m L lp fl r st ops :
 Proof.
   unfold run. revert st; induction ops as [|o ops IH]; intro st; [reflexivity|].
   rewrite run_with_cons. simpl snd. rewrite IH, step_heap.
-  destruct o as [b|b v|bs]; simpl spec_outputs.
+  destruct o as [b|b v|bs|]; simpl spec_outputs.
   - rewrite step_call_output. reflexivity.
+  - reflexivity.
   - reflexivity.
   - reflexivity.
 Qed.
@@ -262,7 +263,7 @@ Proof.
   unfold run. induction ops as [|o ops IH]; intros st Hll Hal Hsafe.
   - simpl. unfold spec_history. destruct (fl_store fl); simpl; rewrite app_nil_r; reflexivity.
   - rewrite run_with_cons. simpl fst.
-    destruct o as [b|b v|bs].
+    destruct o as [b|b v|bs|].
     + (* call *)
       set (st1 := fst (step N I m L lp fl r st (OCall b))).
       assert (Hh : heap st1 = heap st) by (unfold st1; rewrite step_heap; reflexivity).
@@ -298,6 +299,13 @@ Proof.
       simpl step. simpl fst. rewrite IH; [ reflexivity | exact Hll | | ].
       * destruct Hal as [Ha|Hnw]; [left; exact Ha|right]. simpl in Hnw. exact Hnw.
       * intros b' ll' Hin. specialize (Hsafe b' ll' Hin). simpl in Hsafe. exact Hsafe.
+    + (* pickle round trip: references become copies of what they refer to *)
+      simpl step. simpl fst. rewrite IH; [ | exact Hll | | ].
+      * simpl trace. f_equal. rewrite !view_eq. unfold pickled. simpl hist. simpl heap.
+        rewrite map_map. apply map_ext. intros [e ll]. unfold deref, snapshot; simpl. destruct e; reflexivity.
+      * destruct Hal as [Ha|Hnw]; [left; exact Ha|right]. simpl in Hnw. exact Hnw.
+      * intros b' ll' Hin. unfold pickled in Hin. simpl hist in Hin. apply in_map_iff in Hin.
+        destruct Hin as ([e ll] & He & _). unfold snapshot in He. simpl in He. destruct e; discriminate.
 Qed.
 
 (* top-level forms: a fresh fitness object (empty history) *)
@@ -324,19 +332,20 @@ Proof.
   assert (G : forall st, hist st = [] -> hist (fst (run_with (step N I m L lp fl r) st ops)) = []).
   { induction ops as [|o ops IH]; intros st Hst; [exact Hst|].
     rewrite run_with_cons. simpl fst. apply IH.
-    destruct o as [b|b v|bs]; simpl; auto.
-    destruct (evaluate N m L (buf (heap st) b)); simpl; auto. rewrite Hs. exact Hst. }
+    destruct o as [b|b v|bs|]; simpl; auto.
+    - destruct (evaluate N m L (buf (heap st) b)); simpl; auto. rewrite Hs. exact Hst.
+    - rewrite Hst. reflexivity. }
   rewrite view_eq, G; reflexivity.
 Qed.
 
 (* ---------- pyswarms ---------- *)
-Definition gate m vec : bool := limits_ok N (m_limits m) vec && forallb (assert_ok N vec) (m_asserts m).
+Definition gate m vec : bool := limits_gate N m vec && forallb (assert_ok N vec) (m_asserts m).
 
 Lemma instance_from_vector_cases m vec : length vec = prior_count m ->
   instance_from_vector N m vec = if gate m vec then inl (instance N m vec) else inr EFit.
 Proof.
   intro Hl. unfold instance_from_vector, gate. rewrite Hl, Nat.eqb_refl. simpl.
-  destruct (limits_ok N (m_limits m) vec); simpl; auto.
+  destruct (limits_gate N m vec); simpl; auto.
   destruct (forallb (assert_ok N vec) (m_asserts m)); reflexivity.
 Qed.
 
@@ -452,7 +461,7 @@ Proof.
       unfold spec_history_ps. destruct (i_pshist I); simpl.
       - destruct (fl_store fl); simpl; [|reflexivity]. rewrite deref_val_entries, filter_map_app. reflexivity.
       - reflexivity. }
-    destruct o as [b|b v|bs].
+    destruct o as [b|b v|bs|].
     + (* single vector *)
       simpl trace in HF. inversion HF as [|? ? Hl HF']; subst.
       specialize (Hone [buf (heap st) b] (Forall_cons _ Hl (Forall_nil _)) HF').
@@ -468,6 +477,15 @@ Proof.
       specialize (Hone (map (buf (heap st)) bs) HFv HFr).
       unfold step_ps. destruct (ps_batch N I m L lp fl r (hist st) (map (buf (heap st)) bs) []) as [h' out].
       simpl fst. simpl snd. simpl trace. simpl spec_outputs_ps. rewrite map_map in Hone. exact Hone.
+    + (* pickle round trip *)
+      simpl step_ps. simpl fst. simpl snd. simpl trace in HF.
+      assert (Hp : hist (pickled st) = hist st).
+      { unfold pickled; simpl. rewrite <- (map_id (hist st)) at 2. apply map_ext_in. intros [e ll] Hin.
+        unfold snapshot; simpl. destruct e as [b|w]; [exfalso; exact (Hnr b ll Hin) | reflexivity]. }
+      assert (Hnr' : no_refs (hist (pickled st))) by (rewrite Hp; exact Hnr).
+      destruct (IH (pickled st) HF Hnr') as [IHv IHo]. simpl heap in *.
+      split; [|simpl; rewrite IHo; reflexivity].
+      rewrite IHv. simpl trace. f_equal. rewrite !view_eq, Hp. reflexivity.
 Qed.
 
 End Generic.
@@ -550,7 +568,7 @@ Qed.
 
 Lemma resample_cases (m : @model V) (L : @lik V) (lp : @lprior V) fl r vec :
   length vec = prior_count m ->
-  (limits_ok N (m_limits m) vec = false \/
+  (limits_gate N m vec = false \/
    forallb (assert_ok N vec) (m_asserts m) = false \/
    L (instance N m vec) = LRaise \/
    (exists ll b, L (instance N m vec) = LRet ll b /\ n_isnan N ll = true)) ->
@@ -614,3 +632,21 @@ Proof.
   { apply map_ext. intro k. f_equal. lia. }
   rewrite E. reflexivity.
 Qed.
+
+(* ---------- USE_JAX ---------- *)
+Section Jax.
+Context {V : Type} (N : num V).
+Lemma limits_resample_nojax (m : @model V) (L : @lik V) (lp : @lprior V) fl r vec :
+  m_jax m = false -> length vec = prior_count m -> limits_ok N (m_limits m) vec = false ->
+  call_value N m L lp fl r vec = Returned r.
+Proof.
+  intros Hj Hl Hlim. apply resample_cases; auto. left. unfold limits_gate. rewrite Hj, Hlim. reflexivity.
+Qed.
+Lemma limits_gate_nojax (m : @model V) vec : m_jax m = false -> limits_gate N m vec = limits_ok N (m_limits m) vec.
+Proof. intro H. unfold limits_gate. rewrite H. reflexivity. Qed.
+End Jax.
+
+(* pyswarms with the flags it is wired with (posterior, chi-squared) returns what the plain fitness returns *)
+Lemma ps_matches_fitness_Q (lp : @lprior Q) vec ll s :
+  ps_merit numQ lp vec ll == merit numQ {| fl_like := false; fl_chi2 := true; fl_store := s |} lp vec ll.
+Proof. rewrite ps_merit_Q, merit_Q. simpl. ring. Qed.
